@@ -32,7 +32,7 @@ ORG = [s for s in R.ORGANICS if "P" not in s and "[N@]" not in s and "[S@" not i
 
 def items(tier, seed):
     out = [{"part": "organic", "idx": i, "tier": tier, "seed": seed} for i in range(len(ORG))]
-    for cls, n in (("SP", 4), ("TB", 5), ("OH", 6), ("OHt", 6)):
+    for cls, n in (("SP", 4), ("SPs", 4), ("SPt", 4), ("TB", 5), ("OH", 6), ("OHt", 6)):
         perms = list(itertools.permutations(range(n)))
         step = 24 if n <= 5 else 40
         for lo in range(0, len(perms), step):
@@ -215,6 +215,10 @@ def _tilted_oct():
 
 
 TEMPL["OHt"] = (TEMPL["OHt"][0], _tilted_oct(), *TEMPL["OHt"][2:])
+# square-planar centres of elements to which RDKit's sanitisation gives sp3 hybridisation (main-group / early transition metals):
+# the label assigned from the coordinates is CHI_SQUAREPLANAR all the same
+TEMPL["SPs"] = ("Sn", G.SQ, G.METAL_LEN, ["F", "Cl", "Br", "I"], "SquarePlanar")
+TEMPL["SPt"] = ("Ti", G.SQ, G.METAL_LEN, ["F", "Cl", "Br", "I"], "SquarePlanar")
 
 
 def _elongated(item, out, mol, els, xyz, c, place, conv, dname):
